@@ -102,6 +102,7 @@ type workerOut struct {
 	Done        bool              `json:"done"`
 	Steps       int64             `json:"steps"`
 	Emitted     int64             `json:"emitted"` // every case the generator produced (all shards): must agree across workers
+	EmitHash    uint64            `json:"emit_hash"` // order-sensitive hash of every emitted key: must agree across workers
 }
 
 const journalSize = 1 << 20
@@ -211,6 +212,7 @@ func (s *Spec[T]) worker(tier string, shard, n int, out string, skipKey string) 
 		idx++
 		key := s.Key(c)
 		h := hashKey(key)
+		wo.EmitHash = wo.EmitHash*1099511628211 ^ h
 		if int(h%uint64(n)) != shard {
 			return
 		}
@@ -505,10 +507,16 @@ func (s *Spec[T]) shardedRun(tier string, rep *Report) {
 	}
 	wg.Wait()
 	emitted := int64(-1)
+	var emitHash uint64
 	for _, wo := range outs {
 		if wo == nil {
 			continue
 		}
+		if emitted >= 0 && wo.Emitted == emitted && wo.EmitHash != emitHash {
+			rep.Cap("HARNESS: generator not deterministic across workers (same number of cases, different cases)")
+			fmt.Printf("HARNESS-WARNING: generator of %s is not deterministic across workers (case hash differs)\n", rep.Property)
+		}
+		emitHash = wo.EmitHash
 		if emitted >= 0 && wo.Emitted != emitted {
 			// every worker enumerates the whole space; a disagreement means the generator is not
 			// deterministic and the shards do not partition one space
